@@ -499,6 +499,8 @@ func c06cellOut(v interface{}) string {
 	return "o:" + hx(fmt.Sprintf("%T:%v", v, v))
 }
 
+var c06siblings = []string{"a + b", "a - b", "a * b", "b - a"}
+
 var c06colOrder = []string{"a", "b", "s", "t", "f", "n"}
 
 func c06rowMap(op []string) map[string]interface{} {
@@ -544,7 +546,23 @@ func (g *c06gen) fnOp() []string {
 		}
 	}
 	op := []string{"fn", name}
+	related := []string{"foobar", "foo", "bar", "oba", "", "fo", "r", "foobarx", "Foo", " foo "}
 	for i := 0; i < n; i++ {
+		if g.rng.Intn(3) > 0 {
+			switch name {
+			case "startswith", "endswith", "indexof", "replace", "concat", "upper", "lower", "trim", "ltrim", "rtrim", "substring", "lpad", "rpad":
+				// strings that are prefixes / suffixes / infixes of one another, so that both outcomes occur
+				if !((name == "substring" || name == "lpad" || name == "rpad") && i == 1) {
+					op = append(op, "s:"+hx(related[g.rng.Intn(len(related))]))
+					continue
+				}
+				op = append(op, "i:"+strconv.Itoa(g.rng.Intn(9)-2))
+				continue
+			case "abs", "sign", "floor", "round", "sqrt", "mod", "trunc", "greatest", "least", "coalesce", "if_null", "null_if":
+				op = append(op, []string{"i:-3", "i:0", "i:7", c06fbits(2.5), c06fbits(-0.75), "n", "i:2"}[g.rng.Intn(7)])
+				continue
+			}
+		}
 		op = append(op, g.anyCell())
 	}
 	return op
@@ -725,6 +743,25 @@ func (e *c06env) evalRow(op []string) (out [][]string) {
 		}
 		return c06cellOut(v)
 	})
+	// sibling expressions through the same process-wide caches: same first byte, same length,
+	// different meaning — a cache that confuses entries shows here
+	func() {
+		line := []string{"k"}
+		defer func() {
+			if r := recover(); r != nil {
+				line = append(line, "panic:"+hx(fmt.Sprint(r)))
+			}
+			out = append(out, line)
+		}()
+		for _, sib := range c06siblings {
+			v, err := functions.GetExprBridge().EvaluateExpression(sib, c06rowMap(op))
+			if err != nil {
+				line = append(line, "e")
+			} else {
+				line = append(line, c06cellOut(v))
+			}
+		}
+	}()
 	guard("r", func() string {
 		if e.selErr != nil {
 			return "exec-err"
